@@ -8,6 +8,7 @@ if [ ! -d $wt ]; then git -C /repo worktree add -q --detach $wt HEAD && cp /repo
 git -C $wt checkout -q --detach $(git -C /repo rev-parse HEAD)
 for d in /verif/seeded/*${flt}*/; do
   id=$(basename $d); prop=${id%-*}
+  if grep -q '"status_at_repo_HEAD": "equivalent' $d/meta.json 2>/dev/null; then echo "$id SKIPPED (equivalent at repo HEAD, see meta.json)"; continue; fi
   git -C $wt checkout -q -- biom
   if ! git -C $wt apply $d/patch.diff 2>/dev/null; then
      if ! git -C $wt apply --3way $d/patch.diff >/dev/null 2>&1; then echo "$id PATCH-DOES-NOT-APPLY"; git -C $wt reset -q --hard; continue; fi
